@@ -17,7 +17,7 @@ CORPUS = {
     "shapes": '<svg xmlns="http://www.w3.org/2000/svg" viewBox="0 0 20 20" width="20" height="20"><rect x="1" y="1" width="5" height="4" style="fill:red;opacity:0.5"/><path d="m2,2 l3,0 t2,2 z m5,5 h2 v2 z" fill-rule="evenodd"/><circle cx="25" cy="5" r="2"/><line x1="0" y1="0" x2="0.0004" y2="0" stroke="blue"/><polygon points="1.23456,2.34567 8,3 4,9" fill="none"/></svg>',
     "use": '<svg xmlns="http://www.w3.org/2000/svg" xmlns:xlink="http://www.w3.org/1999/xlink" viewBox="0 0 20 20"><defs><rect id="r" width="4" height="3"/><g id="g"><circle cx="2" cy="2" r="1.5"/></g></defs><use xlink:href="#r" x="3" y="2" fill="red"/><g opacity="0.5"><use xlink:href="#g" transform="scale(2)"/><use xlink:href="#r"/></g></svg>',
     "nested": '<svg xmlns="http://www.w3.org/2000/svg" viewBox="0 0 20 20"><svg x="2" y="2" width="10" height="10" viewBox="0 0 5 5"><rect width="5" height="2" fill="blue"/></svg><ellipse cx="5" cy="15" rx="3" ry="2" style="fill:lime;stroke:black;stroke-width:0.5"/></svg>',
-    "noise": '<?xml version="1.0"?><svg xmlns="http://www.w3.org/2000/svg" xmlns:foo="http://example.com/foo" viewBox="0 0 20 20" foo:bar="1"><title>t</title><?pi x?><!-- c --><symbol><rect width="20" height="20"/></symbol><foo:el/><metadata/><path d="M1,1 L9,1 L9,9 L1,9 Z M3,3 L7,3 L7,7 L3,7 Z" fill-rule="evenodd" fill-opacity="0.5"/><desc>d</desc></svg>',
+    "noise": '<?xml version="1.0"?><?pi before?><!-- c0 --><svg xmlns="http://www.w3.org/2000/svg" xmlns:foo="http://example.com/foo" viewBox="0 0 20 20" foo:bar="1"><title>t</title><?pi x?><!-- c --><symbol><rect width="20" height="20"/></symbol><foo:el/><metadata/><path d="M1,1 L9,1 L9,9 L1,9 Z M3,3 L7,3 L7,7 L3,7 Z" fill-rule="evenodd" fill-opacity="0.5"/><desc>d</desc></svg><?pi after?><!-- c9 -->',
     "gradient": '<svg xmlns="http://www.w3.org/2000/svg" xmlns:xlink="http://www.w3.org/1999/xlink" viewBox="0 0 20 20"><defs><linearGradient id="a" x2="0.5"><stop offset="0" stop-color="red"/><stop offset="1" stop-color="blue" style="stop-opacity:0.5"/></linearGradient><linearGradient id="b" xlink:href="#a" gradientTransform="rotate(90)"/></defs><g transform="translate(2,3)" style="fill:url(#b)"><rect width="6" height="6"/><rect x="7" width="3" height="6" style="fill:url(#a)" opacity="0"/></g></svg>',
     "rootpaint": '<svg xmlns="http://www.w3.org/2000/svg" viewBox="0 0 20 20" fill="red" fill-opacity="0.5"><g opacity="0.5"><rect x="1" y="1" width="6" height="6"/><rect x="4" y="4" width="6" height="6" fill="blue"/></g><g><circle cx="14" cy="14" r="3"/></g></svg>',
     "inherit": '<svg xmlns="http://www.w3.org/2000/svg" viewBox="0 0 20 20" fill="green"><g style="stroke:red;stroke-width:2" fill="black" opacity="0.5"><rect x="2" y="2" width="6" height="6" fill="black"/><g fill="none"><rect x="5" y="5" width="6" height="6" stroke="none"/></g></g><clipPath id="c"><rect width="4" height="20"/></clipPath><rect width="20" height="3" y="12" clip-path="url(#c)"/></svg>',
